@@ -8,6 +8,8 @@
 -/
 import GojaModel.C11.Codec
 import GojaModel.C11.GenPrelude
+import GojaModel.C11.Ordinary
+import GojaModel.C11.Exotic
 import GojaModel.Generated.C11_Checks
 
 namespace GojaModel.C11.Seq
@@ -77,8 +79,109 @@ open GojaModel.Generated.C11 in
 def layers (n : Nat) (sc : Script) : Ops Log :=
   stack gen_isCompatibleDescriptor (toValuePropWith gen_toValuePropAccessor) (fun i t s => s ++ [(i, t)]) (scripted sc) n
 
+
+/-! ## model correspondence: the target models of Ordinary.lean / Exotic.lean run on primitive-operation histories
+
+      Q model <kind> <op;op;...>   ->   <answer>|<answer>|...
+  kinds: mobj (ordinary), marr (Array [1,2,3]), mstr (new String("ab")), mta (Uint8Array [1,2,3]), margm (mapped arguments (1,2));
+  all with prototype null.  Keys: i<n> ↦ .str (n+1), length ↦ .str 0, names ↦ .str 1000+. -/
+
+def mkKey (t : String) : Option Key :=
+  match t.toList with
+  | 'i' :: r => (String.ofList r).toNat?.map (fun n => Key.str (n + 1))
+  | _ =>
+    if t == "length" then some (.str 0) else if t == "x" then some (.str 1000) else if t == "y" then some (.str 1001)
+    else if t == "zz" then some (.str 1002) else if t == "q" then some (.str 1003) else none
+
+def showMKey : Key → String
+  | .str 0 => "klength"
+  | .str 1000 => "kx" | .str 1001 => "ky" | .str 1002 => "kzz" | .str 1003 => "kq"
+  | .str (n + 1) => "k" ++ toString n
+  | .sym n => "y" ++ toString n
+
+def idxOfKey : Key → Option Nat
+  | .str (n + 1) => if n < 999 then some n else none
+  | _ => none
+
+def env0 : Env :=
+  { self := 1, inhHas := fun _ _ => false, inhGet := fun _ _ _ => .undef, inhSet := fun _ _ _ _ => none,
+    callGetter := fun _ _ => .num 1, cyc := fun _ => false, callable := false, constructor := false,
+    callF := fun _ _ s => (.typeError, s), consF := fun _ _ s => (.typeError, s) }
+
+def arr0 : AEnv :=
+  { E := env0, lenKey := .str 0, idxOf := idxOfKey,
+    toLen := fun v => match v with
+      | .num n => if 0 ≤ n then some n.toNat else none
+      | .null => some 0 | .negZero => some 0 | .tru => some 1 | .fls => some 0
+      | _ => none }
+
+def ta0 : TEnv :=
+  { E := env0, numOf := idxOfKey,
+    conv := fun v => match v with
+      | .num n => .num (n % 256)
+      | .tru => .num 1
+      | _ => .num 0 }
+
+def showMObs : Obs → String
+  | .bool (.ok b) => if b then "v:t" else "v:f"
+  | .val (.ok v) => "v:" ++ showVal v
+  | .desc (.ok c) => showCur c
+  | .keys (.ok ks) => "k:" ++ ",".intercalate (ks.map showMKey)
+  | .proto (.ok p) => showProto p
+  | .obj (.ok o) => "v:o" ++ toString o
+  | .kind c k => "kind:" ++ bs c ++ bs k
+  | _ => "THROW"
+
+def parseMOp (t : String) : Option Op :=
+  match t.splitOn "/" with
+  | ["gopd", k] => (mkKey k).map .getOwn
+  | ["get", k] => (mkKey k).map (fun k => .get k (.obj 1))
+  | ["has", k] => (mkKey k).map .has
+  | ["del", k] => (mkKey k).map .delete
+  | ["set", k, v] => do let k ← mkKey k; let v ← parseVal? v; pure (.set k v (.obj 1))
+  | ["def", k, d] => do let k ← mkKey k; let d ← parseDesc? d; pure (.define k d.toPD)
+  | ["pe"] => some .prevExt
+  | ["ie"] => some .isExt
+  | ["keys"] => some .ownKeys
+  | _ => none
+
+def runM {σ : Type} (T : Ops σ) (fixKeys : σ → List Key → List Key) : List Op → σ → List String
+  | [], _ => []
+  | op :: rest, s =>
+    let (o, s') := T.run op s
+    let o := match o with
+      | .keys (.ok ks) => Obs.keys (.ok (fixKeys s' ks))
+      | o => o
+    showMObs o :: runM T fixKeys rest s'
+
+def dataP (k : Nat) (v : Val) : Key × Cur := (.str k, .data v true true true)
+
+def modelAnswer (kind : String) (opsTok : String) : String :=
+  match (opsTok.splitOn ";").mapM parseMOp with
+  | none => "PARSE"
+  | some ops =>
+    let out :=
+      if kind == "mobj" then
+        runM (ordOps env0) (fun _ ks => ks) ops { ext := true, proto := none, props := [dataP 1000 (.num 1)] }
+      else if kind == "marr" then
+        runM (arrOps arr0) (fun _ ks => ks) ops
+          { o := { ext := true, proto := none, props := [dataP 1 (.num 1), dataP 2 (.num 2), dataP 3 (.num 3)] }, len := 3, lenW := true }
+      else if kind == "mstr" then
+        runM (fixedOps env0 (stringFixed (fun i => .str (i + 1)) (.str 0) [.str 1001, .str 1002])) (fun _ ks => ks) ops
+          { ext := true, proto := none, props := [] }
+      else if kind == "mta" then
+        runM (taOps ta0) (fun s ks => (List.range s.elems.length).map (fun i => Key.str (i + 1)) ++ ks) ops
+          { o := { ext := true, proto := none, props := [] }, elems := [.num 1, .num 2, .num 3] }
+      else if kind == "margm" then
+        runM (argOps env0) (fun _ ks => ks) ops
+          { o := { ext := true, proto := none, props := [dataP 1 (.num 1), dataP 2 (.num 2)] },
+            map := [(.str 1, 0), (.str 2, 1)], params := [.num 1, .num 2] }
+      else ["BADKIND"]
+    "|".intercalate out
+
 def answer (f : List String) : String :=
   match f with
+  | ["model", kind, ops] => modelAnswer kind ops
   | [n, prim, a1, a2, res, own, ext, proto, keys] =>
     let r : Option String := do
       let n ← n.toNat?
